@@ -262,7 +262,7 @@ func perturb(t *rapid.T, cs *api.Case) {
 	case "SetDoorPasscodes":
 		kinds = append(kinds, "door", "door")
 	case "SetTimeProfile":
-		kinds = append(kinds, "dates", "segments", "segments", "order", "order")
+		kinds = append(kinds, "dates", "segments", "segments", "order", "order", "odd-times")
 	}
 	switch rapid.SampledFrom(kinds).Draw(t, "perturb") {
 	case "serial0":
@@ -378,6 +378,12 @@ func perturb(t *rapid.T, cs *api.Case) {
 		default: // same hour, minutes reversed
 			c.Segments[2*i], c.Segments[2*i+1] = spec.HM{H: a.H % 24, M: 30}, spec.HM{H: a.H % 24, M: 29}
 		}
+	case "odd-times":
+		// times of day that NewHHmm accepts although no clock shows them (08:75, 24:30, 25:00): the segment is in order, and an
+		// odd time is none of the reasons for which a profile is rejected
+		i := rapid.IntRange(0, 2).Draw(t, "segment")
+		odd := rapid.SampledFrom([][2]spec.HM{{{H: 8, M: 75}, {H: 9, M: 10}}, {{H: 8, M: 0}, {H: 24, M: 30}}, {{H: 25, M: 0}, {H: 25, M: 0}}, {{H: 0, M: 60}, {H: 0, M: 99}}, {{H: 23, M: 59}, {H: 29, M: 0}}, {{H: 12, M: 61}, {H: 12, M: 62}}}).Draw(t, "odd")
+		c.Segments[2*i], c.Segments[2*i+1] = odd[0], odd[1]
 	}
 }
 
